@@ -52,6 +52,8 @@ BOUNDS = {
         # read-modify-write opcodes with a memory operand, all three modes
         "x86stack": dict((n, {"seg": 1, "opsz": 2, "adsz": 2, "mand": 4, "rex": 2, "ops": ("string", "lock"),
                               "modrm": 1}) for n in ("x86_16", "x86_32", "x86_64")),
+        # constant generators / modified / sign-extended immediates x boundary constants (native byte orders)
+        "specimm": dict((n, {"mode": "quick"}) for n in ("msp430", "arml", "armtl", "mips32b", "ppc32b", "aarch64l")),
         "shard": 128, "bundles": 32,
     },
     "thorough": {
@@ -69,6 +71,7 @@ BOUNDS = {
                                    ["arml", "armtl", "aarch64l", "mips32b", "ppc32b", "msp430", "sh4"])),
         "x86stack": dict((n, {"seg": 3, "opsz": 2, "adsz": 2, "mand": 4, "rex": 2, "ops": ("string", "lock", "sse"),
                               "modrm": 2}) for n in ("x86_16", "x86_32", "x86_64")),
+        "specimm": dict((n, {"mode": "full"}) for n in g.SPECIMM_TARGETS),
         "shard": 128, "bundles": 160,
     },
 }
